@@ -110,4 +110,49 @@ def fwriteFault3 (c : MemoCfg) (m : Memo) (sink : Sink) (s : PSettings) (v : Val
         | .error p => some (.error p)
         | .ok (mj, _) => fin mj pr'
 
+/-! ### v1 / v2: `fromSequenceWithPositions` over pull iterators
+
+`for pr, ok := iter(); ok && consumer.CanConsume(); … { consume2.FromGenerator(
+s.WithStart(pr.Start).WithEnd(pr.End).FullIterator(), consumer) }`. `FullIterator()` creates the
+memoizer's iterator (an eager `wait(start)`) and pulls one digit ahead; `FromGenerator` asks
+`CanConsume()` before every pull. A consumer that takes `j` items therefore makes `j + 1` calls of
+the inner iterator (fewer when the range ends first). -/
+
+/-- one range (v1/v2): `none` when a view operation is not available -/
+def rangeFault12 (c : MemoCfg) (m : Memo) (pr : Printer) (v : Val12) (r : PRange) :
+    Option (Except Panic (Memo × Printer)) :=
+  match v.apply (.withStart r.start) with
+  | some (.ok v1) =>
+    match v1.apply (.withEnd r.stop) with
+    | some (.ok v2) =>
+      if !pr.raw.canConsume then some (.ok (m, pr))        -- the loop of ranges is left (f037092)
+      else
+        let full := spec12Iterate c m v2.spec v2.start.toNat ((r.stop - r.start).toNat + 2)
+        match pr.feed full.2 with
+        | .error p => some (.error p)
+        | .ok pr' =>
+          if pr'.raw.canConsume then some (.ok (full.1, pr'))
+          else some (.ok ((spec12Iterate c m v2.spec v2.start.toNat (pr'.pulled - pr.pulled + 1)).1, pr'))
+    | _ => none
+  | _ => none
+
+def rangesFault12 (c : MemoCfg) : Memo → Printer → Val12 → List PRange → Option (Except Panic (Memo × Printer))
+  | m, pr, _, [] => some (.ok (m, pr))
+  | m, pr, v, r :: rs =>
+    match rangeFault12 c m pr v r with
+    | none => none
+    | some (.error p) => some (.error p)
+    | some (.ok (m', pr')) => rangesFault12 c m' pr' v rs
+
+/-- `Fprint(w, s, p, options…)` of v1 / v2 with the memoizer state it leaves behind -/
+def fprintFault12 (ver : Version) (c : MemoCfg) (m : Memo) (sink : Sink) (s : PSettings) (v : Val12)
+    (ranges : List PRange) : Option (Except Panic (PrintResult × Memo)) :=
+  match rangesFault12 c m (newPrinter ver sink (positionsEnd ranges) s) v ranges with
+  | none => none
+  | some (.error p) => some (.error p)
+  | some (.ok (m', pr)) =>
+    match pr.raw.finish with
+    | .error p => some (.error p)
+    | .ok raw => some (.ok (⟨raw.w.sink.accepted, raw.w.sink.bytesWritten, raw.err, pr.pulled, raw.w.sink.calls⟩, m'))
+
 end Sqroot.Model
